@@ -23,7 +23,7 @@ RULE = (
 ASSUMPTIONS = ["the injected 'unknown' at the z3.Solver.check boundary models a backend timeout / resource limit / interrupt",
                "a faulted query leaves the reference model set unchanged (queries do not constrain)"]
 BUDGET_S = {"quick": 280, "thorough": 3000}
-N = {"quick": 14, "thorough": 400}
+N = {"quick": 24, "thorough": 400}
 CONFIGS = [{"frontend": f} for f in ("Solver", "SolverCacheless", "SolverComposite", "SolverHybrid")]
 GROUPS = ("core", "branch")
 
@@ -96,6 +96,59 @@ def replay(case):
     return list(outd.items())
 
 
+@st.composite
+def fault_scenarios(draw):
+    """Histories shaped so that a fault has something to corrupt and something to reveal it afterwards:
+    constraint groups over separate variables (so a composite has several children, some of them unsatisfiable only by
+    solving), a few probe queries (each of whose checks gets faulted in turn), optionally a branch taken right after,
+    and then the same probes plus sat / min / max / eval on every focus variable, on the solver and on the branch."""
+    names = list(draw(st.permutations(sm.BVVARS)))[: draw(st.integers(1, 3))]
+    out = []
+    contra = [lambda x: [("ult", x, sm._c(3)), ("ugt", x, sm._c(5))],
+              lambda x: [("eq", ("bvmul", x, sm._c(2)), sm._c(3))],
+              lambda x: [("eq", x, sm._c(1)), ("eq", x, sm._c(2))],
+              lambda x: [("eq", ("bvand", x, sm._c(12)), sm._c(3))]]
+    n_unsat = 0
+    for nm in names:
+        x = sm._v(nm)
+        k = draw(st.integers(0, 9))
+        if k < 3 and n_unsat == 0 and len(names) > 1:
+            n_unsat += 1
+            for c in draw(st.sampled_from(contra))(x):
+                out.append({"op": "add", "s": 0, "cs": [c], "as_list": draw(st.booleans())})
+        elif k < 8:
+            for _ in range(draw(st.integers(1, 2))):
+                out.append({"op": "add", "s": 0, "cs": [draw(sm.constraints((nm,)))], "as_list": draw(st.booleans())})
+    if draw(st.integers(0, 3)) == 0 and len(names) > 1:
+        out.append({"op": "add", "s": 0, "cs": [draw(sm.constraints(tuple(names[:2])))], "as_list": False})
+    out = list(draw(st.permutations(out)))
+    probes = []
+    for _ in range(draw(st.integers(1, 2))):
+        q = draw(sm.steps(("core",), tuple(names)).filter(lambda s_: s_["op"] != "add"))
+        if "e" in q and q["op"] not in ("is_true", "is_false") and draw(st.booleans()):
+            q = {**q, "e": sm._v(draw(st.sampled_from(names)))}
+        if draw(st.integers(0, 2)):
+            q = {**q, "extra": []}
+        probes.append({**q, "s": 0})
+    out += probes
+    branched = draw(st.booleans())
+    if branched:
+        out.append({"op": "branch", "s": 0})
+    targets = [0, -1] if branched else [0]
+    for t in targets:
+        after = [{"op": "sat", "s": t, "extra": []}]
+        for q in probes:
+            after.append({**q, "s": t})
+        for nm in names:
+            x = sm._v(nm)
+            after.append({"op": draw(st.sampled_from(("max", "min"))), "s": t, "e": x, "signed": draw(st.booleans()), "extra": []})
+            if draw(st.booleans()):
+                after.append({"op": "eval", "s": t, "e": x, "n": draw(st.sampled_from((2, 17))), "extra": []})
+        after.append({"op": "sat", "s": t, "extra": []})
+        out += after
+    return out
+
+
 def run_shard(shard, ctx):
     fe = shard["frontend"]
 
@@ -114,7 +167,8 @@ def run_shard(shard, ctx):
             seen.add(fp)
             ctx.fail(fp, {"frontend": fe, "history": hist, "fault": fault}, obs)
 
-    hyp.run(sm.histories(GROUPS, max_steps=10), shard["n"], shard["hseed"], body, ctx)
+    strat = sm.histories(GROUPS, max_steps=10) if shard["i"] % 2 == 0 else fault_scenarios()
+    hyp.run(strat, shard["n"], shard["hseed"], body, ctx)
     ctx.extra["exhaustive"] = False
     ctx.extra["positions_enumerated_per_history"] = "every (operation, check index) pair of every generated history"
 
